@@ -511,6 +511,7 @@ func (c *Conn) ResetPollerEvent() {
 	p := c.p
 	g := p.g
 	fd := c.fd
+	c.mux.Lock()
 	if g.isOneshot && !c.closed {
 		if len(c.writeList) == 0 {
 			_ = p.resetRead(fd)
@@ -518,4 +519,5 @@ func (c *Conn) ResetPollerEvent() {
 			_ = p.modWrite(fd)
 		}
 	}
+	c.mux.Unlock()
 }
